@@ -1,4 +1,5 @@
 import PyhfModel.Infer
+import PyhfProofs.Lemmas.Mills
 import PyhfProofs.Lemmas.RealPrim
 import Mathlib.Analysis.SpecialFunctions.Sqrt
 import Mathlib.Analysis.SpecialFunctions.Pow.Real
@@ -97,9 +98,9 @@ theorem ordering (Φ : ℝ → ℝ) (hmono : Monotone Φ) (hpos : ∀ x, 0 < Φ 
   refine ⟨(hpos _).le, h1, hle _, div_nonneg (hpos _).le (hpos _).le, ?_⟩
   rw [div_le_one (hpos _)]; exact h1
 
-/-- the five-point band is non-decreasing from the −2σ to the +2σ entry, provided `x ↦ Φ(x − a)/Φ(x)` is
-monotone for `a ≥ 0` (log-concavity of the normal cdf; not available in Mathlib — kept as a hypothesis) -/
-theorem band_monotone_partial (Φ : ℝ → ℝ) (sA : ℝ)
+/-- the five-point band is non-decreasing from the −2σ to the +2σ entry, for any `Φ` such that `x ↦ Φ(x − a)/Φ(x)` is
+monotone (discharged for the normal cdf in `band_monotone` below) -/
+theorem band_monotone_of_ratio_monotone (Φ : ℝ → ℝ) (sA : ℝ)
     (hlc : Monotone fun x => Φ (x - sA) / Φ x) :
     List.Pairwise (· ≤ ·) ([2, 1, 0, -1, -2].map fun n : ℝ => Φ (-n - sA) / Φ (-n)) := by
   have key : ∀ a b : ℝ, b ≤ a → Φ (-a - sA) / Φ (-a) ≤ Φ (-b - sA) / Φ (-b) := by
@@ -111,6 +112,26 @@ theorem band_monotone_partial (Φ : ℝ → ℝ) (sA : ℝ)
   refine ⟨⟨key _ _ (by norm_num), key _ _ (by norm_num), key _ _ (by norm_num), key _ _ (by norm_num)⟩,
     ⟨key _ _ (by norm_num), key _ _ (by norm_num), key _ _ (by norm_num)⟩,
     ⟨key _ _ (by norm_num), key _ _ (by norm_num)⟩, key _ _ (by norm_num)⟩
+
+/-! ### the statements above for the actual standard normal cdf
+
+`Mills.Phi = cdf (gaussianReal 0 1)` (Mathlib).  `Lemmas/Mills.lean` proves `Φ' = φ`, the Mills-ratio bound
+`x·Φ(x) + φ(x) ≥ 0`, hence `φ/Φ` antitone and `x ↦ Φ(x − a)/Φ(x)` monotone for `a ≥ 0` (log-concavity of `Φ`). -/
+
+/-- **the five-point expected band is non-decreasing from −2σ to +2σ**, for every Asimov value `q_A` -/
+theorem band_monotone (qA : ℝ) :
+    List.Pairwise (· ≤ ·) ([2, 1, 0, -1, -2].map fun n : ℝ => Mills.Phi (-n - Real.sqrt qA) / Mills.Phi (-n)) :=
+  band_monotone_of_ratio_monotone Mills.Phi (Real.sqrt qA) (Mills.Phi_ratio_monotone _ (Real.sqrt_nonneg qA))
+
+/-- `0 ≤ CL_{s+b} ≤ CL_b ≤ 1` and `0 ≤ CL_s ≤ 1` with the normal cdf -/
+theorem ordering_normal (t qA : ℝ) :
+    let clsb := Mills.Phi (-(t - (-Real.sqrt qA)))
+    let clb := Mills.Phi (-(t - 0))
+    0 ≤ clsb ∧ clsb ≤ clb ∧ clb ≤ 1 ∧ 0 ≤ clsb / clb ∧ clsb / clb ≤ 1 :=
+  ordering Mills.Phi Mills.Phi_mono Mills.Phi_pos Mills.Phi_le_one t (Real.sqrt qA) (Real.sqrt_nonneg qA)
+
+/-- the "1 − Φ" forms of the statement: `Φ(−x) = 1 − Φ(x)` -/
+theorem one_minus_form (x : ℝ) : Mills.Phi (-x) = 1 - Mills.Phi x := Mills.Phi_neg x
 
 /-! ### clipped base distribution -/
 
